@@ -6,6 +6,7 @@
 package prog
 
 import (
+	"bytes"
 	"context"
 	"errors"
 	"fmt"
@@ -741,7 +742,7 @@ func WireFindings(e *simnet.End) []string {
 	if n := e.CloseCount(); n > 1 {
 		out = append(out, fmt.Sprintf("%s transport closed %d times", e.Role, n))
 	}
-	var all []byte
+	var all, accepted []byte
 	type id struct{ s, m uint64 }
 	var last id
 	lastDone := true
@@ -750,6 +751,9 @@ func WireFindings(e *simnet.End) []string {
 	for _, w := range e.Writes() {
 		data := w.Data
 		all = append(all, data...)
+		if w.N >= 0 && w.N <= len(w.Data) {
+			accepted = append(accepted, w.Data[:w.N]...)
+		}
 		for len(data) > 0 {
 			rem, fr, ok, err := drpcwire.ParseFrame(data)
 			if err != nil || !ok {
@@ -783,6 +787,21 @@ func WireFindings(e *simnet.End) []string {
 				out = append(out, fmt.Sprintf("a conforming reader rejects the bytes written by the %s: %v", e.Role, err))
 			}
 			break
+		}
+	}
+	// what the peer actually gets: only the part of each write the transport accepted. After a write
+	// that was cut short (an error after some of its bytes) nothing that follows may reach the peer,
+	// or it reads the tail of one frame glued to the head of another.
+	if !bytes.Equal(all, accepted) {
+		rd := drpcwire.NewReaderWithOptions(&byteReader{b: accepted}, drpcwire.ReaderOptions{MaximumBufferSize: 64 << 20})
+		for {
+			_, err := rd.ReadPacket()
+			if err != nil {
+				if drpc.ProtocolError.Has(err) {
+					out = append(out, fmt.Sprintf("a conforming reader rejects the bytes the transport accepted from the %s (writes went on after one that was cut short): %v", e.Role, err))
+				}
+				break
+			}
 		}
 	}
 	return out
